@@ -6,6 +6,7 @@ import (
 	"reflect"
 	"time"
 	"unsafe"
+	hyphen "verifharness/props/c15/hy-phen"
 
 	"github.com/philpearl/avro"
 	"github.com/unravelin/null/v5"
@@ -139,7 +140,7 @@ func types(tier string) []tcase {
 	// duplicate JSON names
 	ts = append(ts, tcase{"duplicate-json-names", reflect.StructOf([]reflect.StructField{field("A", i64, `json:"x"`), field("B", str, `json:"x"`)}), false})
 	// static named types
-	for _, v := range []interface{}{Inner{}, Twice{}, TwiceNested{}, EmbedExported{}, EmbedPtr{}, EmbedUnexported{}, Money{},
+	for _, v := range []interface{}{hyphen.Hy{}, struct{ H *hyphen.Hy }{}, struct{ L []hyphen.Hy }{}, Inner{}, Twice{}, TwiceNested{}, EmbedExported{}, EmbedPtr{}, EmbedUnexported{}, Money{},
 		struct{ M Money }{}, struct{ T1, T2 time.Time }{}, struct {
 			A null.Int
 			B null.Int
@@ -310,6 +311,14 @@ func runType(c *fw.Ctx, tc tcase) {
 	c.Guard(locus, "second SchemaForType("+tc.name+")", det, func() { again, err2 = avro.SchemaForType(reflect.New(tc.typ).Interface()) })
 	if err2 != nil || aschema.Diff(got, again) != "" {
 		c.Violation("nondeterministic|"+locus, fmt.Sprintf("two calls of SchemaForType(%s) disagree (second via pointer): err=%v", tc.name, err2), det)
+	}
+	// the usual way to name a type without building a value: a typed nil pointer
+	var viaNil avro.Schema
+	var errN error
+	if !c.Guard(locus+"|typed-nil", "SchemaForType((*T)(nil)) for "+tc.name, det, func() {
+		viaNil, errN = avro.SchemaForType(reflect.Zero(reflect.PointerTo(tc.typ)).Interface())
+	}) && (errN != nil || aschema.Diff(got, viaNil) != "") {
+		c.Violation("nondeterministic|"+locus+"|typed-nil", fmt.Sprintf("SchemaForType((*T)(nil)) for %s disagrees with the call by value: err=%v", tc.name, errN), det)
 	}
 	// marshal / parse identity on generated schemas (C14's clause over generated schemas is checked there too)
 	// codec is built or refused, never a panic
@@ -547,7 +556,7 @@ func init() {
 		ID:    "C15",
 		Level: "exploration",
 		Rule: func(tier string) string {
-			return "bounded-exhaustive enumeration of Go struct types (reflect.StructOf + static named/recursive types): 91 field types (every kind incl. unsupported ones, slices/maps/pointers/arrays of them, named struct, registered library and harness types) × 15 tag combinations as single-field structs; each field type in a 5-field struct with unexported/excluded siblings; each behind {struct, *struct, []struct, map[string]struct, []*struct} with omitempty; embedded exported/pointer/unexported structs; the same named struct in 2–3 positions; 7 self-referential shapes (own worker case each, 64 MiB stack)" + map[string]string{"thorough": "; all ordered pairs of field types", "quick": ""}[tier] + "; oracle = the documented mapping written as a total specification function (spec.SchemaFor) + structural validity + determinism (value and pointer call; and a third call after the caller has overwritten everything reachable from the first result) + Schema.Codec returns without panic; plus every history of length<=3 over {generate, register schema 1, register schema 2 for the inner named type} on fresh generic types, each generation compared with the mapping under the registrations in force at that moment; non-trivial = the mapping defines a verdict (schema or must-fail) for the type"
+			return "bounded-exhaustive enumeration of Go struct types (reflect.StructOf + static named/recursive types): 91 field types (every kind incl. unsupported ones, slices/maps/pointers/arrays of them, named struct, registered library and harness types) × 15 tag combinations as single-field structs; each field type in a 5-field struct with unexported/excluded siblings; each behind {struct, *struct, []struct, map[string]struct, []*struct} with omitempty; embedded exported/pointer/unexported structs; a named struct from a package whose import path contains a hyphen (namespace mapping); the same named struct in 2–3 positions; 7 self-referential shapes (own worker case each, 64 MiB stack)" + map[string]string{"thorough": "; all ordered pairs of field types", "quick": ""}[tier] + "; oracle = the documented mapping written as a total specification function (spec.SchemaFor) + structural validity + determinism (value, pointer and typed-nil-pointer call; and a third call after the caller has overwritten everything reachable from the first result) + Schema.Codec returns without panic; plus every history of length<=3 over {generate, register schema 1, register schema 2 for the inner named type} on fresh generic types, each generation compared with the mapping under the registrations in force at that moment; non-trivial = the mapping defines a verdict (schema or must-fail) for the type"
 		},
 		Assumptions: []string{
 			"Go arrays are not mentioned by the documented mapping: types containing them are exercised (no panic, determinism, validity) but their schema is not judged",
